@@ -517,3 +517,61 @@ func (r *vSchedReader) Read(p []byte) (int, error) {
 }
 
 var vEOF = io.EOF
+
+// vConcurrent: natively f runs in two goroutines at once (the replay binary for
+// "concurrency:" labels is built with -race); under the engine f is executed once and
+// its write footprint is decided.
+func vConcurrent(f func()) {
+	done := make(chan bool, 2)
+	for i := 0; i < 2; i++ {
+		go func() {
+			defer func() { done <- true }()
+			f()
+		}()
+	}
+	<-done
+	<-done
+}
+
+func vAssertNoWritesSince(mark int, label string) {}
+
+// vShares: do two values share a map or a slice backing array?
+func vShares(a, b interface{}) bool {
+	seen := map[uintptr]bool{}
+	var walk func(v interface{}, record bool) bool
+	walk = func(v interface{}, record bool) bool {
+		switch c := v.(type) {
+		case Map:
+			return walk(map[string]interface{}(c), record)
+		case map[string]interface{}:
+			p := reflect.ValueOf(c).Pointer()
+			if record {
+				seen[p] = true
+			} else if seen[p] {
+				return true
+			}
+			for _, e := range c {
+				if walk(e, record) {
+					return true
+				}
+			}
+		case []interface{}:
+			if len(c) > 0 {
+				p := reflect.ValueOf(c).Pointer()
+				if record {
+					seen[p] = true
+				} else if seen[p] {
+					return true
+				}
+			}
+			for _, e := range c {
+				if walk(e, record) {
+					return true
+				}
+			}
+		}
+		return false
+	}
+	walk(a, true)
+	return walk(b, false)
+}
